@@ -2,11 +2,12 @@
    The decode tree and the encode rows are the generated Gen/GenHuffDec.v and Gen/GenHuffEnc.v.
    u8 / u16 shifts are explicit (mod 256 / mod 65536).  The u32 computations of read_bits (the only
    multiplications / additions on bit positions in the decoder) panic on overflow (Panic 13/14, as in an
-   overflow-checked build); the BitWindow fields themselves are derived from positions that passed that
-   check.  The encoder's u32 fields are taken unbounded (strings below 2^26 octets).  Other panic sites:
+   overflow-checked build); the BitWindow field updates of `forwards` (forwards_chk, Panic 15/17/19), `byte + 1`
+   in check_eof (Panic 16) and the `7 * byte` of the encoder's reserve (Panic 18) panic at the field widths
+   read from bitwin.rs (Gen/GenBitwin.v).  Other panic sites:
    slice index out of bounds and the debug_assert!s of write_bits (the harness is built with debug
    assertions). *)
-From H3V Require Import Base.Bytes Gen.GenHuffDec Gen.GenHuffEnc.
+From H3V Require Import Base.Bytes Gen.GenHuffDec Gen.GenHuffEnc Gen.GenBitwin.
 
 (* ---------------------------------------------------------------- bitwin.rs *)
 Record bitwin := { bw_byte : N; bw_bit : N; bw_count : N }.
@@ -15,10 +16,17 @@ Definition bw_new : bitwin := {| bw_byte := 0; bw_bit := 0; bw_count := 0 |}.
 
 Definition forwards (step : N) (w : bitwin) : bitwin :=
   let bit := bw_bit w + bw_count w in
-  {| bw_byte := bw_byte w + bit / 8; bw_bit := bit mod 8; bw_count := step |}.
+  {| bw_byte := bw_byte w + bit / bw_bits_per_byte; bw_bit := bit mod bw_bits_per_byte; bw_count := step |}.
 
 Definition opposite_bit_window (w : bitwin) : bitwin :=
-  {| bw_byte := bw_byte w; bw_bit := bw_bit w; bw_count := 8 - bw_bit w mod 8 |}.
+  {| bw_byte := bw_byte w; bw_bit := bw_bit w; bw_count := bw_bits_per_byte - bw_bit w mod bw_bits_per_byte |}.
+
+(* `forwards` with the field widths of bitwin.rs (Gen/GenBitwin.v): None = `self.bit += self.count` or
+   `self.byte += self.bit / 8` overflows its field (panic in an overflow-checked build, wrap otherwise) *)
+Definition forwards_chk (step : N) (w : bitwin) : option bitwin :=
+  if 2 ^ bw_bit_width <=? bw_bit w + bw_count w then None
+  else if 2 ^ bw_byte_width <=? bw_byte w + (bw_bit w + bw_count w) / bw_bits_per_byte then None
+  else Some (forwards step w).
 
 Definition nth_n {A} (l : list A) (i : N) : option A := nth_error l (N.to_nat i).
 
@@ -30,9 +38,9 @@ Inductive huff_err := MissingBits | Unhandled.
 Definition read_bits (src : bytes) (byte_offset bit_offset len_ : N) : res unit N :=
   if (len_ =? 0) || (8 <? len_) then Err tt
   else
-    let l32 := len src mod 2 ^ 32 in
-    if 2 ^ 32 <=? l32 * 8 then Panic 13
-    else if 2 ^ 32 <=? byte_offset * 8 + bit_offset + len_ then Panic 14
+    let l32 := len src mod 2 ^ bw_read_bits_width in
+    if 2 ^ bw_read_bits_width <=? l32 * 8 then Panic 13
+    else if 2 ^ bw_read_bits_width <=? byte_offset * 8 + bit_offset + len_ then Panic 14
     else if l32 * 8 <? byte_offset * 8 + bit_offset + len_ then Err tt
     else
     let byte_offset := byte_offset + bit_offset / 8 in
@@ -54,8 +62,13 @@ Definition read_bits (src : bytes) (byte_offset bit_offset len_ : N) : res unit 
    prefix_string::decode establishes before calling the Huffman decoder) *)
 Definition fits_u32 (input : bytes) : Prop := 8 * len input + 8 < 2 ^ 32.
 
+(* strings whose encoding stays within the encoder's u32 positions: 30 bits per octet at most *)
+Definition enc_fits (s : bytes) : Prop := len s < 2 ^ 26.
+
 (* HuffmanDecoder::check_eof: Ok None = clean end of input *)
 Definition check_eof (w : bitwin) (input : bytes) : res huff_err (option N) :=
+  if 2 ^ bw_byte_width <=? bw_byte w + 1 then Panic 16            (* bit_pos.byte + 1 overflows *)
+  else
   match (bw_byte w + 1) ?= len input with
   | Gt => Ok None
   | Eq =>
@@ -85,12 +98,15 @@ Fixpoint decode_next (d : dnode) (w : bitwin) (input : bytes) {struct d}
   : res huff_err (option (N * bitwin)) :=
   match d with
   | DNode lookup table =>
-      let w := forwards lookup w in
-      match fetch_value w input with
-      | Ok (Some value) => pick table (N.to_nat value) w input
-      | Ok None => Ok None
-      | Err e => Err e
-      | Panic s => Panic s
+      match forwards_chk lookup w with
+      | None => Panic 15
+      | Some w =>
+          match fetch_value w input with
+          | Ok (Some value) => pick table (N.to_nat value) w input
+          | Ok None => Ok None
+          | Err e => Err e
+          | Panic s => Panic s
+          end
       end
   end
 with pick (t : dlist) (i : nat) (w : bitwin) (input : bytes) {struct t}
@@ -143,12 +159,22 @@ Record henc := { he_pos : bitwin; he_buf : bytes }.
 
 Definition henc_new : henc := {| he_pos := bw_new; he_buf := [] |}.
 
-Definition ensure_free_space (bit_count : N) (e : henc) : henc :=
-  let end_range := forwards 0 (forwards bit_count (he_pos e)) in
-  if bw_byte end_range <? len (he_buf e) then e
-  else
-    let forward := bw_byte end_range - len (he_buf e) + (if 0 <? bw_bit end_range then 1 else 0) in
-    {| he_pos := he_pos e; he_buf := he_buf e ++ repeat 255 (N.to_nat forward) |}.
+(* the `reserve((7 * end_range.byte) / 4)` is computed in the width of `byte` whenever capacity() <= byte;
+   the model takes that to be the case whenever the buffer has to grow (over-approximation of the panic) *)
+Definition ensure_free_space (bit_count : N) (e : henc) : res unit henc :=
+  match forwards_chk bit_count (he_pos e) with
+  | None => Panic 17
+  | Some r1 =>
+      match forwards_chk 0 r1 with
+      | None => Panic 17
+      | Some end_range =>
+          if bw_byte end_range <? len (he_buf e) then Ok e
+          else if 2 ^ bw_byte_width <=? bw_reserve_mul * bw_byte end_range then Panic 18
+          else
+            let forward := bw_byte end_range - len (he_buf e) + (if 0 <? bw_bit end_range then 1 else 0) in
+            Ok {| he_pos := he_pos e; he_buf := he_buf e ++ repeat 255 (N.to_nat forward) |}
+      end
+  end.
 
 Fixpoint upd {A} (l : list A) (i : nat) (x : A) : option (list A) :=
   match l, i with
@@ -204,19 +230,27 @@ Fixpoint put_parts (parts : bytes) (rest : N) (e : henc) : res unit henc :=
   match parts with
   | [] => Ok e
   | part :: ps =>
-      let pos := forwards (if rest <? 8 then rest else 8) (he_pos e) in
-      let rest := rest - bw_count pos in
-      match write_bits (he_buf e) pos part with
-      | Ok buf => put_parts ps rest {| he_pos := pos; he_buf := buf |}
-      | Err u => Err u
-      | Panic s => Panic s
+      match forwards_chk (if rest <? 8 then rest else 8) (he_pos e) with
+      | None => Panic 19
+      | Some pos =>
+          let rest := rest - bw_count pos in
+          match write_bits (he_buf e) pos part with
+          | Ok buf => put_parts ps rest {| he_pos := pos; he_buf := buf |}
+          | Err u => Err u
+          | Panic s => Panic s
+          end
       end
   end.
 
 Definition put (code : N) (e : henc) : res unit henc :=
   match nth_n huff_enc_rows code with
   | None => Panic 28
-  | Some (bit_count, buffer) => put_parts buffer bit_count (ensure_free_space bit_count e)
+  | Some (bit_count, buffer) =>
+      match ensure_free_space bit_count e with
+      | Ok e1 => put_parts buffer bit_count e1
+      | Err u => Err u
+      | Panic s => Panic s
+      end
   end.
 
 Fixpoint put_all (s : bytes) (e : henc) : res unit henc :=
